@@ -39,6 +39,7 @@ TEXTS = {
     'nv3': ('SOMETHING ELSE 9', 'SOMETHING ELSE 9'),
     'nv4': ('ALFA REFUND', 'ALFA REFUND'),
     # wallet-prefixed descriptions (a budget may strip the prefix with a field transform before rules are matched)
+    'spl': ('SPLIT CO', 'SPLIT CO'),
     'apA': ('APLPAY ALFA STORE', 'APLPAY ALFA STORE'),
     'apX': ('APLPAY ZULU BAR', 'APLPAY ZULU BAR'),
     'nvp': ('APLPAY ALFA POPUP', 'APLPAY ALFA POPUP'),
@@ -55,6 +56,9 @@ AMOUNTS = {
     'cur5': ('$5', 500, '€5', 500),
     'pad': ('  8.25 ', 825, ' 8,25  ', 825),
     'sp': ('£ 9.99', 999, '1 234,00', 123400),
+    # whole thousands written with the thousands separator and no decimals: under a decimal comma the dot is NOT a decimal point
+    'k1': ('1,234', 123400, '1.234', 123400),
+    'k2m': ('-2,500', -250000, '-2.500', -250000),
     'zero': ('0', 0, '0', 0),
     'zero2': ('0.00', 0, '0,00', 0),
     'pzero': ('(0)', 0, '(0)', 0),
